@@ -3,7 +3,7 @@ From Coq Require Import Permutation Sorted.
 From ZV.Common Require Import Base.
 From ZV.C10 Require Import Model Spec ProofsPow2 ProofsRing ProofsHist ProofsVec ProofsValVec ProofsFixed.
 From ZV.Gen Require Import ConstsC10.
-From ZV.C10 Require Import ModelValVec32 ProofsValVec32 ModelArena ProofsArena ModelStrVec ProofsStrVec ModelFixedLen ProofsFixedLen ModelFastVecCopy ProofsFastVecCopy ModelCacheVec ProofsCacheVec ModelBitPacked ProofsBitPacked ModelCases.
+From ZV.C10 Require Import ModelValVec32 ProofsValVec32 ModelArena ProofsArena ModelStrVec ProofsStrVec ModelFixedLen ProofsFixedLen ModelFastVecCopy ProofsFastVecCopy ModelCacheVec ProofsCacheVec ModelBitPacked ProofsBitPacked ModelRingBulk ProofsRingBulk ModelCases.
 Open Scope N_scope.
 
 (* ensure_power_of_two (bit smearing) returns a power of two that is large enough, for every request up to 2^62 *)
@@ -828,3 +828,30 @@ Check bitpacked_get_pushes :
                  bpv_get w64 v i = Done (nth_error ss (N.to_nat i)) /\
                  bpv_get_bytes w64 v i = Done (nth_error ss (N.to_nat i)) /\ nlen (pentries v) = nlen ss.
 Print Assumptions bitpacked_get_pushes.
+
+(* ===== extension 3: AutoGrowCircularQueue::pop_bulk and the caller's slice (ModelRingBulk.v) ===== *)
+
+(* pop_bulk(&mut out) seen from the caller's slice: for every ring holding l (any head offset, wrapped or not) and every
+   slice, the first k = min(|out|, |l|) slots of the slice receive the first k elements of l in order, exactly the k
+   overwritten values are destroyed (in index order, each once), the other slots keep their values, no uninitialised
+   slot is read, and the ring holds the rest of l *)
+Theorem ring_pop_bulk_into_slice :
+  forall (A : Type) q (l out : list A), R A q l ->
+  let k := Nat.min (length out) (length l) in
+  exists q', pop_bulk_into A q out = Ok (q', (firstn k l ++ skipn k out, firstn k out)) /\ R A q' (skipn k l).
+Proof. exact ProofsRingBulk.ring_pop_bulk_into_proof. Qed.
+Check ring_pop_bulk_into_slice :
+  forall (A : Type) q (l out : list A), R A q l ->
+  let k := Nat.min (length out) (length l) in
+  exists q', pop_bulk_into A q out = Ok (q', (firstn k l ++ skipn k out, firstn k out)) /\ R A q' (skipn k l).
+Print Assumptions ring_pop_bulk_into_slice.
+
+(* the slice-level function moves exactly what Model.pop_bulk (the operation of ring_refines_deque) moves *)
+Theorem ring_pop_bulk_into_agrees :
+  forall (A : Type) q (out : list A) q' xs, pop_bulk A q (nlen out) = Ok (q', xs) ->
+  pop_bulk_into A q out = Ok (q', (xs ++ skipn (length xs) out, firstn (length xs) out)).
+Proof. exact ProofsRingBulk.pop_bulk_into_spec. Qed.
+Check ring_pop_bulk_into_agrees :
+  forall (A : Type) q (out : list A) q' xs, pop_bulk A q (nlen out) = Ok (q', xs) ->
+  pop_bulk_into A q out = Ok (q', (xs ++ skipn (length xs) out, firstn (length xs) out)).
+Print Assumptions ring_pop_bulk_into_agrees.
